@@ -21,6 +21,7 @@ def handle (line : String) : String :=
   | ["exec", toks, tb] => "ok " ++ execOp toks (parseInt tb)
   | ["compile", prog] => "ok " ++ compileOp prog
   | ["printk", prog] => "ok " ++ printkOp prog
+  | ["keyflagspec", vals] => "ok kf=" ++ "/".intercalate ((Sakura.Core.keyFlagOfList (parseIntList vals)).map toString)
   | ["generate", tb, pf, tracks] =>
       "ok bin=" ++ hex (generateSong (parseInt tb) (parseInt pf) (parseTracks tracks))
   | ["spec.c01", bin, n, tb] => "ok " ++ specC01 (unhex bin) (parseNat n) (parseNat tb)
